@@ -369,39 +369,40 @@ Qed.
 
 (** ** Removal (same induction as StateProofs.RemInv) *)
 
+Lemma J_set_pending s p : J s -> J (set_pending s p).
+Proof. apply J_ext; reflexivity. Qed.
+
+(** the readers only note ids: the invariant does not read the list *)
+Lemma expire_J s id fact now : J s -> J (fst (expire s id fact now)).
+Proof.
+  intros HJ. unfold expire. destruct (fact_expired fact now); [|exact HJ].
+  apply J_set_pending; exact HJ.
+Qed.
+
+Lemma search_ids_J ids : forall s pattern now acc,
+  J s -> J (fst (search_ids s ids pattern now acc)).
+Proof.
+  induction ids as [|id r IH]; intros s pattern now acc HJ; cbn [search_ids].
+  - exact HJ.
+  - destruct (alookup id (st_facts s)) as [fact|]; [|apply IH; exact HJ].
+    pose proof (expire_J s id fact now HJ) as H.
+    destruct (expire s id fact now) as [s1 expired]. cbn [fst] in H.
+    destruct expired; [apply IH; exact H|].
+    destruct (core_match pattern fact []) as [[|b bss]|e|w|]; try exact H; apply IH; exact H.
+Qed.
+
+Lemma search_state_J s pattern now :
+  J s -> J (fst (search_state s pattern now)).
+Proof.
+  intros HJ. unfold search_state. destruct (st_kind s).
+  - destruct (ti_search (st_tindex s) (extract_terms pattern)); try exact HJ.
+    apply search_ids_J; exact HJ.
+  - apply search_ids_J; exact HJ.
+Qed.
+
 Section RemJ.
   Variable rem_rec : state -> string -> Z -> state * outcome bool.
   Hypothesis rem_rec_J : forall s id now, J s -> J (fst (rem_rec s id now)).
-
-  Lemma expire_J s id fact now : J s -> J (fst (fst (expire rem_rec s id fact now))).
-  Proof.
-    intros HJ. unfold expire. destruct (fact_expired fact now); [|exact HJ].
-    pose proof (rem_rec_J s id now HJ) as H.
-    destruct (rem_rec s id now) as [s' o]. cbn [fst] in *.
-    destruct (S (count_facts s') <? count_facts s)%nat; [apply J_set_amb|]; exact H.
-  Qed.
-
-  Lemma search_ids_J ids : forall s pattern now acc,
-    J s -> J (fst (search_ids rem_rec s ids pattern now acc)).
-  Proof.
-    induction ids as [|id r IH]; intros s pattern now acc HJ; cbn [search_ids].
-    - exact HJ.
-    - destruct (alookup id (st_facts s)) as [fact|]; [|apply IH; exact HJ].
-      pose proof (expire_J s id fact now HJ) as H.
-      destruct (expire rem_rec s id fact now) as [[s1 expired] err]. cbn [fst] in H.
-      destruct (expire_stops (st_kind s) err); [exact H|].
-      destruct expired; [apply IH; exact H|].
-      destruct (core_match pattern fact []) as [[|b bss]|e|w|]; try exact H; apply IH; exact H.
-  Qed.
-
-  Lemma search_state_J s pattern now :
-    J s -> J (fst (search_state rem_rec s pattern now)).
-  Proof.
-    intros HJ. unfold search_state. destruct (st_kind s).
-    - destruct (ti_search (st_tindex s) (extract_terms pattern)); try exact HJ.
-      apply search_ids_J; exact HJ.
-    - apply search_ids_J; exact HJ.
-  Qed.
 
   Lemma rem_list_J ids : forall s skip now,
     J s -> J (fst (rem_list rem_rec s ids skip now)).
@@ -419,7 +420,7 @@ Section RemJ.
   Proof.
     intros HJ. unfold delete_dependencies.
     pose proof (search_state_J s (dw_pattern id) now HJ) as H.
-    destruct (search_state rem_rec s (dw_pattern id) now) as [s1 [found|e|w|]]; cbn [fst] in *; try exact H.
+    destruct (search_state s (dw_pattern id) now) as [s1 [found|e|w|]]; cbn [fst] in *; try exact H.
     apply rem_list_J; exact H.
   Qed.
 
@@ -462,20 +463,26 @@ Proof. apply rem_fuel_J. Qed.
 Lemma st_rem_rec_J s id now : J s -> J (fst (st_rem_rec s id now)).
 Proof. apply rem_fuel_J. Qed.
 
+Lemma J_with_purge {A} (r : state * outcome A) now : J (fst r) -> J (fst (with_purge r now)).
+Proof. apply (with_purge_inv J J_set_pending st_rem_J). Qed.
+
 Lemma st_search_J s p now : J s -> J (fst (st_search s p now)).
-Proof. apply search_state_J. apply st_rem_rec_J. Qed.
+Proof. intros HJ. unfold st_search. apply J_with_purge. apply search_state_J; exact HJ. Qed.
+
+Lemma get_body_J s id now : J s -> J (fst (get_body s id now)).
+Proof.
+  intros HJ. unfold get_body. destruct (alookup id (st_facts s)) as [fact|]; [|exact HJ].
+  pose proof (expire_J s id fact now HJ) as H.
+  destruct (expire s id fact now) as [s1 [|]]; exact H.
+Qed.
 
 Lemma st_get_J s id now : J s -> J (fst (st_get s id now)).
-Proof.
-  intros HJ. unfold st_get. destruct (alookup id (st_facts s)) as [fact|]; [|exact HJ].
-  destruct (fact_expired fact now); [|exact HJ].
-  pose proof (st_rem_J s id now HJ) as H.
-  destruct (st_rem s id now) as [s1 [b|e|w|]]; exact H.
-Qed.
+Proof. intros HJ. unfold st_get. apply J_with_purge. apply get_body_J; exact HJ. Qed.
 
 Lemma st_Rem_J s id now : J s -> J (fst (st_Rem s id now)).
 Proof.
-  intros HJ. unfold st_Rem. destruct (st_hooks s); [|apply st_rem_J; exact HJ].
+  intros HJ. unfold st_Rem. apply J_with_purge.
+  destruct (st_hooks s); [|apply st_rem_J; exact HJ].
   pose proof (st_get_J s id now HJ) as H.
   destruct (st_get s id now) as [s1 [b|e|w|]]; cbn [fst] in *; try exact H.
   apply st_rem_J; exact H.
@@ -486,21 +493,24 @@ Proof.
   induction ids as [|id r IH]; intros s now acc HJ; cbn [find_ids_idx].
   - exact HJ.
   - destruct (alookup id (st_facts s)) as [fact|]; [|exact HJ].
-    pose proof (expire_J st_rem_rec st_rem_rec_J s id fact now HJ) as H.
-    destruct (expire st_rem_rec s id fact now) as [[s1 expired] err]. cbn [fst] in H.
+    pose proof (expire_J s id fact now HJ) as H.
+    destruct (expire s id fact now) as [s1 expired]. cbn [fst] in H.
     destruct expired; [apply IH; exact H|].
     destruct (extract_rule fact true) as [[body|]|e|w|]; try exact H. apply IH; exact H.
+Qed.
+
+Lemma do_find_rules_J s ev now : J s -> J (fst (do_find_rules s ev now)).
+Proof.
+  intros HJ. unfold do_find_rules. apply J_with_purge.
+  assert (Hk : st_kind s = Indexed) by apply HJ. rewrite Hk.
+  destruct (pi_search (st_pindex s) ev); try exact HJ. apply find_ids_idx_J; exact HJ.
 Qed.
 
 Lemma st_find_rules_J s ev now : J s -> J (fst (st_find_rules s ev now)).
 Proof.
   intros HJ. unfold st_find_rules.
-  assert (Hk : st_kind s = Indexed) by apply HJ. rewrite Hk.
-  match goal with
-  | |- J (fst (let '(a, b) := ?X in _)) => assert (H : J (fst X)); [|destruct X as [s1 res]]
-  end.
-  { destruct (pi_search (st_pindex s) ev); try exact HJ. apply find_ids_idx_J; exact HJ. }
-  cbn [fst] in H.
+  pose proof (do_find_rules_J s ev now HJ) as H.
+  destruct (do_find_rules s ev now) as [s1 res]. cbn [fst] in H.
   destruct res as [l|e|w|]; exact H.
 Qed.
 
@@ -620,9 +630,9 @@ Proof.
   unfold extract_rule. destruct (jget "rule" fact) as [[| | | | |rm]|]; split; intros H; try discriminate; exact H.
 Qed.
 
-Lemma expire_noexp rr s id fact now :
-  fact_expired fact now = false -> expire rr s id fact now = (s, false, None).
-Proof. intros H. unfold expire. rewrite H. reflexivity. Qed.
+Lemma expire_noexp s id fact now :
+  fact_expired fact now = false -> expire s id fact now = (s, false).
+Proof. apply expire_false. Qed.
 
 Lemma find_ids_idx_noexp s now :
   no_expired s now ->
@@ -639,7 +649,7 @@ Proof.
   - exists (rev acc). split; [reflexivity|]. intros id body. rewrite <- in_rev.
     split; [intros H; left; exact H|intros [H|[[] _]]; exact H].
   - destruct (Hall i (or_introl eq_refl)) as (fact & body & Hl & Hb).
-    rewrite Hl, (expire_noexp _ _ _ _ _ (Hexp i fact Hl)), Hb.
+    rewrite Hl, (expire_noexp _ _ _ _ (Hexp i fact Hl)), Hb.
     destruct (IH ((i, body) :: acc)) as (l & Hrun & Hin).
     { intros id Hid. apply Hall. right; exact Hid. }
     exists l. split; [exact Hrun|]. intros id body'. rewrite Hin. cbn [In]. split.
@@ -791,17 +801,17 @@ Qed.
 
 (** The indexed candidate list, with the RuleFromMap check. *)
 Lemma st_find_rules_indexed s ev now ids :
-  st_kind s = Indexed -> Pidx_exact s -> no_expired s now ->
+  st_kind s = Indexed -> Pidx_exact s -> no_expired s now -> st_pending s = [] ->
   pi_search (st_pindex s) ev = Ok ids -> bodies_checked s ->
   exists cands, st_find_rules s ev now = (s, Ok cands) /\
     forall id body, In (id, body) cands <->
       In id ids /\ exists fact, alookup id (st_facts s) = Some fact /\
                                 extract_rule fact true = Ok (Some body).
 Proof.
-  intros Hk HEx Hexp Hs Hchk.
+  intros Hk HEx Hexp Hpend Hs Hchk.
   destruct (stale_never_blocks s ev ids now HEx Hexp Hs) as (cands & Hrun & Hin).
   exists cands. split; [|exact Hin].
-  unfold st_find_rules. rewrite Hk, Hs, Hrun.
+  unfold st_find_rules, do_find_rules. rewrite Hk, Hs, Hrun, (with_purge_nil s _ now Hpend).
   rewrite check_rules_ok; [reflexivity|].
   intros id body Hc. apply Hin in Hc. destruct Hc as (Hid & fact & Hl & He).
   destruct (candidate_is_stored s ev ids id HEx Hs Hid) as (fact' & rule' & Hl' & He' & Hsch).
@@ -821,8 +831,9 @@ Theorem dispatch_exact_indexed_inv : forall s l ev now ids,
 Proof.
   intros s l ev now ids (Hk & HEx & HRi) Hls Hne Hs Hfrag Hidx Hchk.
   assert (Hexp : no_expired s now).
-  { intros id fact Hl. apply (Hne id fact). rewrite Hls. exact Hl. }
-  destruct (st_find_rules_indexed s ev now ids Hk HEx Hexp Hs Hchk) as (cands & Hfind & Hin).
+  { intros id fact Hl. apply (proj1 Hne id fact). rewrite Hls. exact Hl. }
+  assert (Hpend : st_pending s = []) by (rewrite <- Hls; exact (proj2 Hne)).
+  destruct (st_find_rules_indexed s ev now ids Hk HEx Hexp Hpend Hs Hchk) as (cands & Hfind & Hin).
   assert (Hcand : forall id body, In (id, body) cands ->
             exists fact, alookup id (st_facts s) = Some fact /\
                          extract_rule fact true = Ok (Some body) /\ is_scheduled body = false).
@@ -901,7 +912,7 @@ Lemma find_ids_lin_step s id r ev now acc fact :
 Proof.
   intros Hl Hx. cbn [find_ids_lin]. rewrite Hl. unfold lin_sel.
   destruct (jget "rule" fact) as [rule|]; [|reflexivity].
-  rewrite (expire_noexp _ _ _ _ _ Hx).
+  rewrite (expire_noexp _ _ _ _ Hx).
   destruct rule as [| | | | |rm]; try reflexivity.
   destruct (alookup "when" rm) as [[| | | | |w]|]; try reflexivity.
   unfold lin_pat. destruct (core_match _ ev []) as [[|b bss]| | |]; reflexivity.
@@ -984,7 +995,7 @@ Theorem dispatch_exact_linear : dispatch_exact_linear_statement.
 Proof.
   intros s l ev now Hk Hls Hne Hfrag Hchk Hsw.
   assert (Hexp : no_expired s now).
-  { intros id fact Hl. apply (Hne id fact). rewrite Hls. exact Hl. }
+  { intros id fact Hl. apply (proj1 Hne id fact). rewrite Hls. exact Hl. }
   (* every stored rule with a `when` map is non-scheduled, canonical and in the fragment *)
   assert (Hwhen : forall id fact rm w,
             alookup id (st_facts s) = Some fact -> jget "rule" fact = Some (JObj rm) ->
@@ -1032,7 +1043,9 @@ Proof.
       unfold lin_sel. rewrite Hr, Hw. unfold lin_pat. rewrite Hp, Hm.
       destruct bss0; [congruence|reflexivity]. }
   assert (Hfind : st_find_rules s ev now = (s, Ok cands)).
-  { unfold st_find_rules. rewrite Hk, Hrun. rewrite check_rules_ok; [reflexivity|].
+  { assert (Hpend : st_pending s = []) by (rewrite <- Hls; exact (proj2 Hne)).
+    unfold st_find_rules, do_find_rules. rewrite Hk, Hrun, (with_purge_nil s _ now Hpend).
+    rewrite check_rules_ok; [reflexivity|].
     intros id body Hc. apply Hcand in Hc.
     destruct Hc as (fact & rm & w & p & bss0 & Hl & Hr & -> & Hw & _).
     destruct (Hwhen id fact rm w Hl Hr Hw) as (Hsch & _).
@@ -1067,11 +1080,14 @@ Qed.
 (** ** Indexed and linear dispatch agree *)
 
 Lemma st_get_snd_lin s id now :
-  no_expired s now -> snd (st_get (as_linear s) id now) = snd (st_get s id now).
+  no_expired s now -> st_pending s = [] ->
+  snd (st_get (as_linear s) id now) = snd (st_get s id now).
 Proof.
-  intros Hexp. unfold st_get. cbn [as_linear st_facts].
-  destruct (alookup id (st_facts s)) as [fact|] eqn:Hl; [|reflexivity].
-  rewrite (Hexp id fact Hl). reflexivity.
+  intros Hexp Hpend. unfold st_get, get_body. cbn [as_linear st_facts].
+  destruct (alookup id (st_facts s)) as [fact|] eqn:Hl.
+  - rewrite !(expire_false _ id fact now (Hexp id fact Hl)).
+    rewrite (with_purge_nil s _ now Hpend), (with_purge_nil (as_linear s) _ now Hpend). reflexivity.
+  - rewrite (with_purge_nil s _ now Hpend), (with_purge_nil (as_linear s) _ now Hpend). reflexivity.
 Qed.
 
 Lemma get_prop_snd l l' id prop now :
@@ -1109,7 +1125,11 @@ Qed.
 
 Lemma nothing_expired_lin l s now :
   l_state l = s -> nothing_expired l now -> nothing_expired (with_state l (as_linear s)) now.
-Proof. intros Hls Hne id fact Hl. apply (Hne id fact). rewrite Hls. exact Hl. Qed.
+Proof.
+  intros Hls [Hne Hp]. split.
+  - intros id fact Hl. apply (Hne id fact). rewrite Hls. exact Hl.
+  - cbn [with_state l_state as_linear st_pending]. rewrite <- Hls. exact Hp.
+Qed.
 
 Lemma rule_enabled_lin l s id now :
   l_state l = s -> nothing_expired l now ->
@@ -1118,9 +1138,9 @@ Proof.
   intros Hls Hne.
   pose proof (nothing_expired_lin l s now Hls Hne) as Hne'.
   assert (Hexp : no_expired s now).
-  { intros i fact Hl. apply (Hne i fact). rewrite Hls. exact Hl. }
+  { intros i fact Hl. apply (proj1 Hne i fact). rewrite Hls. exact Hl. }
   assert (Hg : forall i prop, snd (get_prop (with_state l (as_linear s)) i prop now) = snd (get_prop l i prop now)).
-  { intros i prop. apply get_prop_snd. cbn [with_state l_state]. rewrite Hls. apply st_get_snd_lin. exact Hexp. }
+  { intros i prop. apply get_prop_snd. cbn [with_state l_state]. rewrite Hls. apply st_get_snd_lin; [exact Hexp|]. rewrite <- Hls. exact (proj2 Hne). }
   rewrite (rule_enabled_snd _ id now Hne'), (rule_enabled_snd l id now Hne).
   rewrite !enabled_snd, !Hg. reflexivity.
 Qed.
@@ -1158,29 +1178,29 @@ Section RemGone.
   Variable rem_rec : state -> string -> Z -> state * outcome bool.
   Hypothesis rem_rec_gone : forall s j now, gone s -> gone (fst (rem_rec s j now)).
 
-  Lemma expire_gone s j fact now : gone s -> gone (fst (fst (expire rem_rec s j fact now))).
+  Lemma gone_set_pending s p : gone s -> gone (set_pending s p).
+  Proof. apply gone_ext; reflexivity. Qed.
+
+  Lemma expire_gone s j fact now : gone s -> gone (fst (expire s j fact now)).
   Proof.
     intros HG. unfold expire. destruct (fact_expired fact now); [|exact HG].
-    pose proof (rem_rec_gone s j now HG) as H.
-    destruct (rem_rec s j now) as [s' o]. cbn [fst] in *.
-    destruct (S (count_facts s') <? count_facts s)%nat; exact H.
+    apply gone_set_pending; exact HG.
   Qed.
 
   Lemma search_ids_gone ids : forall s pattern now acc,
-    gone s -> gone (fst (search_ids rem_rec s ids pattern now acc)).
+    gone s -> gone (fst (search_ids s ids pattern now acc)).
   Proof.
     induction ids as [|j r IH]; intros s pattern now acc HG; cbn [search_ids].
     - exact HG.
     - destruct (alookup j (st_facts s)) as [fact|]; [|apply IH; exact HG].
       pose proof (expire_gone s j fact now HG) as H.
-      destruct (expire rem_rec s j fact now) as [[s1 expired] err]. cbn [fst] in H.
-      destruct (expire_stops (st_kind s) err); [exact H|].
+      destruct (expire s j fact now) as [s1 expired]. cbn [fst] in H.
       destruct expired; [apply IH; exact H|].
       destruct (core_match pattern fact []) as [[|b bss]|e|w|]; try exact H; apply IH; exact H.
   Qed.
 
   Lemma search_state_gone s pattern now :
-    gone s -> gone (fst (search_state rem_rec s pattern now)).
+    gone s -> gone (fst (search_state s pattern now)).
   Proof.
     intros HG. unfold search_state. destruct (st_kind s).
     - destruct (ti_search (st_tindex s) (extract_terms pattern)); try exact HG.
@@ -1204,7 +1224,7 @@ Section RemGone.
   Proof.
     intros HG. unfold delete_dependencies.
     pose proof (search_state_gone s (dw_pattern j) now HG) as H.
-    destruct (search_state rem_rec s (dw_pattern j) now) as [s1 [found|e|w|]]; cbn [fst] in *; try exact H.
+    destruct (search_state s (dw_pattern j) now) as [s1 [found|e|w|]]; cbn [fst] in *; try exact H.
     apply rem_list_gone; exact H.
   Qed.
 
@@ -1278,11 +1298,29 @@ Proof.
   rewrite H in HG. cbn [fst snd] in HG. apply HG. right. split; [reflexivity|]. exists b. reflexivity.
 Qed.
 
+Lemma st_rem_gone_keep id0 s j now : gone id0 s -> gone id0 (fst (st_rem s j now)).
+Proof. apply rem_fuel_gone_keep. Qed.
+
+(** a public operation that answers [Ok] got this answer from the operation proper *)
+Lemma with_purge_ok {A} (r : state * outcome A) now s' a :
+  with_purge r now = (s', Ok a) -> snd r = Ok a /\ s' = fst (purge (fst r) now).
+Proof.
+  unfold with_purge. intros H. injection H as Hs Ho. split; [|symmetry; exact Hs].
+  destruct (snd r) as [a0|e|w|]; try discriminate;
+    destruct (snd (purge (fst r) now)); try discriminate; exact Ho.
+Qed.
+
 Lemma st_Rem_gone s id now s' b :
   st_Rem s id now = (s', Ok b) -> alookup id (st_facts s') = None.
 Proof.
-  unfold st_Rem. destruct (st_hooks s); [|apply st_rem_gone].
-  destruct (st_get s id now) as [s1 [f|e|w|]]; try discriminate. apply st_rem_gone.
+  unfold st_Rem. intros H. apply with_purge_ok in H. destruct H as [Ho ->].
+  apply (purge_inv (gone id) (gone_set_pending id) (st_rem_gone_keep id)).
+  destruct (st_hooks s).
+  - destruct (st_get s id now) as [s1 [f|e|w|]]; try discriminate.
+    destruct (st_rem s1 id now) as [s2 o] eqn:E. cbn [fst snd] in *. subst o.
+    apply (st_rem_gone _ _ _ _ _ E).
+  - destruct (st_rem s id now) as [s2 o] eqn:E. cbn [fst snd] in *. subst o.
+    apply (st_rem_gone _ _ _ _ _ E).
 Qed.
 
 (** After [st_Rem id] succeeds, the trie holds no entry for [id] (under any
@@ -1308,9 +1346,10 @@ Proof.
   { intros Hid. destruct (psearch_only_stored _ _ _ _ Hs Hid) as (π & Ht). apply (Htr π Ht). }
   split; [exact Htr|]. split; [exact Hids|].
   assert (Hexp : no_expired s' now').
-  { intros i fact Hl. apply (Hne i fact). rewrite Hls. exact Hl. }
+  { intros i fact Hl. apply (proj1 Hne i fact). rewrite Hls. exact Hl. }
   destruct HP' as (Hk & HEx & HRi).
-  destruct (st_find_rules_indexed s' ev now' ids Hk HEx Hexp Hs Hchk) as (cands0 & Hfind0 & Hin0).
+  assert (Hpend : st_pending s' = []) by (rewrite <- Hls; exact (proj2 Hne)).
+  destruct (st_find_rules_indexed s' ev now' ids Hk HEx Hexp Hpend Hs Hchk) as (cands0 & Hfind0 & Hin0).
   destruct (dispatch_exact_indexed_inv s' l' ev now' ids (conj Hk (conj HEx HRi)) Hls Hne Hs Hfrag Hidx Hchk)
     as (cands & ch & Hfind & Hrun & Hch).
   exists cands, ch. split; [exact Hfind|]. split; [exact Hrun|]. split.
@@ -1545,12 +1584,15 @@ Definition dispatch_hyps_b (s : state) (ev : json) : bool :=
   forallb (fun kv => rule_ok_b ev (snd kv)) (st_facts s).
 
 Definition nothing_expired_b (l : loc) (now : Z) : bool :=
-  forallb (fun kv => negb (fact_expired (snd kv) now)) (st_facts (l_state l)).
+  forallb (fun kv => negb (fact_expired (snd kv) now)) (st_facts (l_state l)) &&
+  match st_pending (l_state l) with [] => true | _ => false end.
 
 Lemma nothing_expired_b_sound l now : nothing_expired_b l now = true -> nothing_expired l now.
 Proof.
-  unfold nothing_expired_b, nothing_expired. rewrite forallb_forall. intros H id fact Hl.
-  apply alookup_In in Hl. specialize (H _ Hl). cbn [snd] in H. apply negb_true_iff in H. exact H.
+  unfold nothing_expired_b, nothing_expired. rewrite andb_true_iff, forallb_forall. intros [H Hp]. split.
+  - intros id fact Hl.
+    apply alookup_In in Hl. specialize (H _ Hl). cbn [snd] in H. apply negb_true_iff in H. exact H.
+  - destruct (st_pending (l_state l)); [reflexivity|discriminate].
 Qed.
 
 Lemma dispatch_hyps_b_sound s ev :
